@@ -5,9 +5,10 @@ import SlipVerif.Driver.Util
      comp run <fuel> <form>*      the history through compilation (`runC` from the empty store)
      comp direct <fuel> <form>*   the history evaluated directly (`run` from the empty table)
    forms (Lisp text, names are [a-z0-9-]+):
-     (defun f (p*) body) | (again j) | expr
-     expr = int | var | (+ a b) (- a b) (* a b) (< a b) (= a b) | (if c t e) | (let ((x v)) b) | (f arg*)
-   reply: ok <out>*   out = i:<int> | nil | t | y:<name> | e:<class> | timeout -/
+     (defun f (p* [&optional (o int)*] [&key (k int)*] [&aux (x expr)*]) body) | (undef f) | (again j) | expr
+     expr = int | var | :kw | (+ a b) (- a b) (* a b) (< a b) (= a b) | (if c t e)
+          | (let ((x v)) b) | (let* ((x v)*) b) | (f arg*)
+   reply: ok <out>*   out = i:<int> | nil | t | y:<name> | k:<name> | e:<class> | timeout -/
 namespace SlipVerif.Driver.Compile
 open SlipVerif.Compile
 
@@ -59,7 +60,7 @@ def toExpr : SExp → Option Expr
   | .atom s =>
     match s.toInt? with
     | some k => some (.const k)
-    | none => some (.var s)
+    | none => if s.startsWith ":" then some (.kw (s.drop 1).toString) else some (.var s)
   | .list [] => none
   | .list (.list _ :: _) => none
   | .list (.atom h :: rest) =>
@@ -91,15 +92,22 @@ mutual
 def deLet : SExp → SExp
   | .atom s => .atom s
   | .list [.atom "let", .list [.list [.atom x, v]], b] => .list [.atom letName, .atom x, deLet v, deLet b]
+  | .list [.atom "let*", .list bs, b] => deLetStar bs (deLet b)
   | .list xs => .list (deLetList xs)
 def deLetList : List SExp → List SExp
   | [] => []
   | x :: xs => deLet x :: deLetList xs
+/-- `(let* ((x v) rest…) b)` = `(let ((x v)) (let* (rest…) b))` -/
+def deLetStar : List SExp → SExp → SExp
+  | [], b => b
+  | .list [.atom x, v] :: rest, b => .list [.atom letName, .atom x, deLet v, deLetStar rest b]
+  | _ :: _, _ => .list [.atom "let"]      -- malformed binding: rejected by fixLet
 end
 
 mutual
 def fixLet : Expr → Option Expr
   | .const k => some (.const k)
+  | .kw k => some (.kw k)
   | .var x => some (.var x)
   | .prim op a b =>
     match fixLet a, fixLet b with
@@ -121,7 +129,7 @@ def fixLet : Expr → Option Expr
         match args with
         | [.var x, v, b] => some (.let1 x v b)
         | _ => none
-      else if f == "let" then none
+      else if f == "let" || f == "let*" then none
       else some (.call f args)
 def fixLetList : List Expr → Option (List Expr)
   | [] => some []
@@ -133,11 +141,43 @@ end
 
 def exprOf (x : SExp) : Option Expr := (toExpr (deLet x)).bind fixLet
 
+/-- `(name int)` or `name` (default nil) -/
+def defaultOf : SExp → Option (String × Val)
+  | .atom x => some (x, .nil)
+  | .list [.atom x, .atom d] => d.toInt?.map (fun k => (x, .int k))
+  | _ => none
+
+def auxOf : SExp → Option (String × Expr)
+  | .list [.atom x, v] => (exprOf v).map (fun e => (x, e))
+  | _ => none
+
+/-- lambda list: mode 0 required, 1 &optional, 2 &key, 3 &aux -/
+def lambdaList : Nat → List SExp → Sig → List (String × Expr) → Option (Sig × List (String × Expr))
+  | _, [], sig, aux => some (sig, aux)
+  | mode, .atom "&optional" :: rest, sig, aux => if mode < 1 then lambdaList 1 rest sig aux else none
+  | mode, .atom "&key" :: rest, sig, aux => if mode < 2 then lambdaList 2 rest sig aux else none
+  | mode, .atom "&aux" :: rest, sig, aux => if mode < 3 then lambdaList 3 rest sig aux else none
+  | 0, .atom x :: rest, sig, aux => lambdaList 0 rest { sig with req := sig.req ++ [x] } aux
+  | 1, x :: rest, sig, aux =>
+    match defaultOf x with
+    | some d => lambdaList 1 rest { sig with opt := sig.opt ++ [d] } aux
+    | none => none
+  | 2, x :: rest, sig, aux =>
+    match defaultOf x with
+    | some d => lambdaList 2 rest { sig with key := sig.key ++ [d] } aux
+    | none => none
+  | 3, x :: rest, sig, aux =>
+    match auxOf x with
+    | some a => lambdaList 3 rest sig (aux ++ [a])
+    | none => none
+  | _, _, _, _ => none
+
 def formOf : SExp → Option Form
   | .list [.atom "defun", .atom f, .list ps, b] =>
-    match atomNames ps, exprOf b with
-    | some ps, some b => some (.defun f ps b)
+    match lambdaList 0 ps ⟨[], [], []⟩ [], exprOf b with
+    | some (sig, aux), some b => some (.defun f ⟨sig, aux, b⟩)
     | _, _ => none
+  | .list [.atom "undef", .atom f] => some (.undef f)
   | .list [.atom "again", .atom j] => j.toNat?.map .again
   | x => (exprOf x).map .expr
 
@@ -153,6 +193,7 @@ def showOut : Out → String
   | .val .nil => "nil"
   | .val .t => "t"
   | .val (.sym s) => s!"y:{s}"
+  | .val (.kw k) => s!"k:{k}"
   | .err (.undefinedFunction _) => "e:undefined-function"
   | .err (.unbound _) => "e:unbound-variable"
   | .err .typeError => "e:type-error"
